@@ -36,11 +36,13 @@ const (
 	maxChiN    = 14 // 3^n subset DP
 	maxDegDefN = 12 // subset definition of degeneracy
 	maxPartN   = 10 // set partitions into independent sets (Bell(10) = 115975)
+	maxListN   = 14 // listing of all maximal cliques by subset scan
 )
 
 // computeRef computes every reference value that is feasible for g.
-// withCounts: also the numbers of proper k-colourings (n <= maxPartN).
-func computeRef(g *rg.G, withCounts bool) *ref {
+// withCounts: also the numbers of proper k-colourings (n <= maxPartN);
+// withIndex: also the chromatic index.
+func computeRef(g *rg.G, withCounts, withIndex bool) *ref {
 	n := g.N
 	r := &ref{n: n, m: g.M(), omega: -1, alpha: -1, chi: -1, chiIdx: -1, degen: -1, nCliques: -1}
 	if n > 32 {
@@ -51,13 +53,15 @@ func computeRef(g *rg.G, withCounts bool) *ref {
 		r.omega = b.Omega()
 		r.alpha = b.Alpha()
 	}
-	if n <= 13 {
+	if n <= maxListN {
 		r.nCliques = len(b.MaximalCliques())
 	}
 	if n <= maxChiN {
 		r.chi = b.Chi()
 	}
-	r.chiIdx = edgeChromatic(g, 20_000_000)
+	if withIndex {
+		r.chiIdx = edgeChromatic(g, 5_000_000)
+	}
 	if n <= maxDegDefN {
 		r.degen = degeneracyByDefinition(b)
 	} else {
@@ -637,7 +641,7 @@ func init() {
 			if f.g.N > 16 {
 				continue
 			}
-			r := computeRef(f.g, false)
+			r := computeRef(f.g, false, true)
 			chk := func(what string, pub, got int) error {
 				if pub >= 0 && got >= 0 && pub != got {
 					return fmt.Errorf("family %s: published %s = %d, brute force %d", f.name, what, pub, got)
